@@ -1391,7 +1391,6 @@ func collectThenSort(l rangeLoop, ph *ssa.Phi) bool {
 // length read before a default / coerced value is stored (`n := v.Len()` hoisted
 // above `v.Set(default)`) leaves the new elements unvisited and untested.
 func (P *Prog) checkElementLoopBound(r *Result) {
-	ca := P.sharedCatchAnalysis()
 	n := 0
 	for _, nf := range P.nodeFuncs() {
 		k := 0
@@ -1401,7 +1400,7 @@ func (P *Prog) checkElementLoopBound(r *Result) {
 				dispatches := false
 				for b := range l.body {
 					for _, in := range b.Instrs {
-						if _, isD := ca.dispatchCallee(callOf(in)); isD {
+						if P.dispatchLike(callOf(in)) {
 							dispatches = true
 						}
 					}
